@@ -45,4 +45,31 @@ def windowOK (lists : List (List String)) (a b : Nat) (url : Option String) : Bo
       | none => l.isEmpty
       | some u => l.contains u)
 
+/-! ### selections made between discovery reports (`lb` judge, mode `swap`) -/
+
+/-- what the harness prints for a selection (`shown` prints a server) -/
+def showRes (shown : Server → String) : Res → String
+  | .nil => "<nil>" | .srv s => shown s | .panic => "<panic>"
+
+/-- every selection observed after report `i` (`obsSel[i]`; index 0 = before the first report) came from the
+list of that report (`ls[i]`), and was nil exactly when that list is empty -/
+def selOK (shown : Server → String) (ls : List (List Server)) (obsSel : List (List String)) : Bool :=
+  (List.range obsSel.length).all fun i =>
+    let cur := ls.getD i []
+    (obsSel.getD i []).all fun e => if cur.isEmpty then e == "<nil>" else (cur.map shown).contains e
+
+/-- weightedRandom: after report `i` no instance whose reported weight is not positive was selected while
+some reported weight is positive -/
+def wSelOK (shown : Server → String) (weighted : Bool) (ls : List (List Server)) (obsSel : List (List String)) : Bool :=
+  !weighted ||
+  (List.range obsSel.length).all fun i =>
+    let cur := ls.getD i []
+    !(cur.any (fun s => decide (s.weight > 0))) ||
+      (obsSel.getD i []).all fun e => (cur.filter (fun s => decide (s.weight > 0))).any (fun s => shown s == e)
+
+/-- the lists the pool's balancer holds before the first and after every report of `gens`, from the history
+semantics `afterReports` -/
+def histLists (sps : PoolSpec) (gens : List (List Instance)) : List (List Server) :=
+  (List.range (gens.length + 1)).map (fun i => afterReports sps (gens.take i))
+
 end EgVerif.LoadBalance
